@@ -99,6 +99,13 @@ type Scenario struct {
 	// calls Recv (the endpoint's receive buffer fills up).
 	NoRecvC2S bool       `json:"norecv_c2s,omitempty"`
 	NoRecvS2C bool       `json:"norecv_s2c,omitempty"`
+	// SlowRecvC2S / SlowRecvS2C: the application receiving that direction
+	// stays out of Recv for a while: StartMs before its first call, and
+	// PauseMs after every EveryN-th message (the endpoint's receive buffer
+	// fills up meanwhile and its receive loop has to wait with the next
+	// packet).
+	SlowRecvC2S *SlowRecv  `json:"slow_recv_c2s,omitempty"`
+	SlowRecvS2C *SlowRecv  `json:"slow_recv_s2c,omitempty"`
 	Client    TimeoutCfg `json:"client"`
 	Server    TimeoutCfg `json:"server"`
 	LatC2SMs  int        `json:"lat_c2s_ms"`
@@ -116,6 +123,13 @@ type Scenario struct {
 	QuiesceMs  int            `json:"quiesce_ms,omitempty"`
 	Gosched    int            `json:"gosched,omitempty"`
 	Extra      map[string]int `json:"extra,omitempty"`
+}
+
+// SlowRecv describes a receiving application that pauses.
+type SlowRecv struct {
+	StartMs int `json:"start_ms,omitempty"`
+	EveryN  int `json:"every_n,omitempty"`
+	PauseMs int `json:"pause_ms,omitempty"`
 }
 
 // Payload builds the deterministic payload of message idx on direction dir.
@@ -323,7 +337,17 @@ func (e *Env) StartReceiver(d int) {
 			e.Mu.Unlock()
 			e.notify()
 		}()
-		for {
+		slow := e.Sc.SlowRecvC2S
+		if d == 1 {
+			slow = e.Sc.SlowRecvS2C
+		}
+		if slow != nil && slow.StartMs > 0 {
+			time.Sleep(time.Duration(slow.StartMs) * time.Millisecond)
+		}
+		for k := 1; ; k++ {
+			if slow != nil && slow.EveryN > 0 && slow.PauseMs > 0 && k > 1 && (k-1)%slow.EveryN == 0 {
+				time.Sleep(time.Duration(slow.PauseMs) * time.Millisecond)
+			}
 			b, err := rcv.Recv()
 			e.Mu.Lock()
 			if err != nil {
